@@ -101,12 +101,27 @@ class Reference:
     """Client side, lives in the worker.  Must be created before the worker builds any parser
     or starts any thread."""
 
-    def __init__(self, tree, cwd=None):
+    def __init__(self, tree, cwd=None, hashseed=None):
         self.tree = tree
         self.cwd = cwd
         self.memo = {}
+        self.new_entries = []
         self.calls = 0
         self.hits = 0
+        self.hashseed = hashseed
+        self.proc = None
+        if hashseed is not None:
+            # a zygote in a freshly exec'ed interpreter under ANOTHER hash seed: "in another process or
+            # under a different hash seed yields an equal result"
+            import subprocess
+            self.proc = subprocess.Popen([sys.executable, os.path.abspath(__file__), "--zygote", tree],
+                                         stdin=subprocess.PIPE, stdout=subprocess.PIPE, stderr=subprocess.DEVNULL,
+                                         env=core.worker_env(hashseed))
+            self.pid, self.wfd, self.rfd = self.proc.pid, self.proc.stdin.fileno(), self.proc.stdout.fileno()
+            msg = _read_msg(self.rfd)
+            if msg != "ready":
+                raise RuntimeError("zygote failed to start: %r" % (msg,))
+            return
         p2c_r, p2c_w = os.pipe()
         c2p_r, c2p_w = os.pipe()
         pid = os.fork()
@@ -141,12 +156,30 @@ class Reference:
         if out and out[0] in ("crash", "harness-exc"):
             raise RuntimeError("reference evaluation failed: %r" % (out,))
         self.memo[key] = out
+        self.new_entries.append((key, out))
         return out
 
     def close(self):
+        if self.proc is not None:
+            try:
+                self.proc.stdin.close()
+                self.proc.wait(timeout=10)
+            except Exception:  # noqa
+                self.proc.kill()
+            return
         try:
             os.close(self.wfd)
             os.close(self.rfd)
             os.waitpid(self.pid, 0)
         except OSError:
             pass
+
+
+if __name__ == "__main__":
+    if len(sys.argv) == 3 and sys.argv[1] == "--zygote":
+        _r, _w = os.dup(0), os.dup(1)
+        _dn = os.open(os.devnull, os.O_RDWR)
+        for _fd in (0, 1, 2):
+            os.dup2(_dn, _fd)
+        sys.path.insert(0, os.path.dirname(os.path.abspath(__file__)))
+        _zygote_main(sys.argv[2], _r, _w)
